@@ -54,6 +54,8 @@ class OptEval(ME.Evaluator):
                     raise ME.Raised(['ValueError'], n)
                 except TypeError:
                     raise ME.Raised(['TypeError'], n)
+                except OverflowError:
+                    raise ME.Raised(['OverflowError'], n)
             if f.id == 'isinstance' and len(n.args) == 2:
                 obj, c = self.ev(n.args[0], env), self.ev(n.args[1], env)
                 cs = c if isinstance(c, tuple) else (c,)
